@@ -41,6 +41,10 @@ func (a AddrSpec) Text() string {
 }
 
 type C05Scenario struct {
+	// Via: how the addresses reach the Msg: "" (From/EnvelopeFrom/AddTo/AddCc/AddBcc with the
+	// full address text), "format" (the *Format variants: display name and addr-spec apart),
+	// "reuse" (plain setters on a Msg that carried another mail and was Reset())
+	Via     string          `json:"via,omitempty"`
 	From    *AddrSpec       `json:"from,omitempty"`
 	EnvFrom *AddrSpec       `json:"envFrom,omitempty"`
 	To      []AddrSpec      `json:"to,omitempty"`
@@ -130,6 +134,7 @@ func (p *c05) Gen(seed uint64, i int, tier string) (any, bool) {
 	for k := 0; k < r.Intn(2); k++ {
 		sc.Bcc = append(sc.Bcc, genAddr(r))
 	}
+	sc.Via = sim.Pick(r, []string{"", "", "format", "reuse"})
 	sc.Client = ClientCfg{TLSPolicy: "none"}
 	caps := []string{"8BITMIME", "SMTPUTF8"}
 	if r.Chance(1, 2) {
@@ -185,9 +190,24 @@ func (p *c05) Exec(t *testing.T, scAny any) Outcome {
 				return
 			}
 			m := mail.NewMsg()
+			if sc.Via == "reuse" {
+				_ = m.EnvelopeFrom("old-bounce@old.example")
+				_ = m.From("old-from@old.example")
+				_ = m.To("old-to@old.example")
+				_ = m.Cc("old-cc@old.example")
+				_ = m.Bcc("old-bcc@old.example")
+				m.Subject("the earlier mail")
+				m.SetBodyString(mail.TypeTextPlain, "earlier\r\n")
+				_, _ = Render(m)
+				m.Reset()
+			}
 			m.Subject("c05")
 			m.SetBodyString(mail.TypeTextPlain, "body\r\n")
+			formatOf := map[string]func(string, string) error{"from": m.FromFormat, "envfrom": m.EnvelopeFromFormat, "to": m.AddToFormat, "cc": m.AddCcFormat, "bcc": m.AddBccFormat}
 			try := func(role string, f func(string) error, a AddrSpec) bool {
+				if sc.Via == "format" {
+					f = func(string) error { return formatOf[role](a.Name, bare(a)) }
+				}
 				if err := f(a.Text()); err != nil {
 					setterErr = append(setterErr, role+": "+err.Error())
 					return false
